@@ -414,7 +414,7 @@ Proof.
     eapply sim_bind. apply sim_readc; auto.
     intros m' [k1 o1] [k2 o2] E [C1 C2]; simpl in *. subst k2. unfold rel_oval in C2. destruct o1, o2; try tauto.
     + destruct k1. apply sim_throwE. apply sim_writec; eauto with c02. split; simpl; eauto with c02.
-    + apply sim_throwE.
+    + destruct k1; apply sim_throwE.
   - apply sim_throwE.
 Qed.
 
